@@ -197,6 +197,16 @@ class PathCtx:
                     pt.append(v == m.eval(v, model_completion=True))
             excl.append(z3.And(pt) if pt else z3.BoolVal(True))
 
+    def lemma(self, cond, timeout_ms=None):
+        """auxiliary fact: if pc => cond is proved it is added to the path condition (it is implied, nothing is assumed);
+        a failed lemma is not a finding - the caller falls back to the direct query"""
+        c = cond.b if isinstance(cond, core.SBool) else cond
+        status, _ = self.eng.valid(c, timeout_ms)
+        if status == 'proved':
+            self.eng.assume(c)
+            return True
+        return False
+
     def fail(self, what, classes=None):
         """the path itself (e.g. an exception raised by the code) violates the property if it is feasible"""
         return self.prove(z3.BoolVal(False), what, classes=classes, chain=False)
